@@ -67,7 +67,14 @@ MCSend ==
          [] stage = 42 -> Next1([t |-> "D", kind |-> "P", name |-> "o"]) /\ stage' = 43
          [] stage = 43 -> Next1([t |-> "E", portal |-> "o", max |-> 0]) /\ stage' = 6
          [] stage = 5 -> Next1([t |-> "E", portal |-> "", max |-> 0])
-         [] stage = 6 -> Next1([t |-> "S"])
+         [] stage = 6 -> \/ Next1([t |-> "S"])
+                         \/ \* the same portal executed once more: it still carries the parameters of its Bind
+                            /\ ClientSend([t |-> "E", portal |-> "", max |-> 0])
+                            /\ hist' = Append(hist, [k |-> "send", m |-> [t |-> "E", portal |-> "", max |-> 0]])
+                            /\ stage' = 60
+         [] stage = 60 -> /\ ClientSend([t |-> "S"])
+                          /\ hist' = Append(hist, [k |-> "send", m |-> [t |-> "S"]])
+                          /\ stage' = 7
          [] OTHER -> FALSE
 
 MCServer == ServerStep /\ UNCHANGED <<hist, stage>>
